@@ -26,6 +26,7 @@ type closeCase struct {
 type closeResult struct {
 	MaxCloseTook time.Duration
 	CloseHung    string
+	EarlyReturn  string
 	BlockedSend  string // result of the Send that was blocked / in flight when Close ran
 	BlockedRecv  string
 	LaterSend    bool // Send after Close fails
@@ -121,6 +122,8 @@ func closeScenario(t *testing.T, c closeCase) closeResult {
 			sim.SetBlockTx(true)
 		}
 		t0 := sim.now()
+		tClose := time.Now()
+		firstRet := map[int][]time.Duration{}
 		var cw sync.WaitGroup
 		for _, ep := range closers {
 			for k := 0; k < c.Callers; k++ {
@@ -137,6 +140,10 @@ func closeScenario(t *testing.T, c closeCase) closeResult {
 						mu.Lock()
 						if d > out.MaxCloseTook {
 							out.MaxCloseTook = d
+						}
+						if j == 0 {
+							// first call of this caller: callers that overlap the shutdown all return when it is over
+							firstRet[ep] = append(firstRet[ep], time.Since(tClose))
 						}
 						mu.Unlock()
 					}
@@ -163,6 +170,27 @@ func closeScenario(t *testing.T, c closeCase) closeResult {
 			}
 			<-closeDone
 		}
+		// every Close call that overlapped the shutdown returns when the shutdown is over, not before:
+		// with a hung transport the shutdown takes the FIN timeout, and no caller may be back earlier
+		mu.Lock()
+		for ep, rets := range firstRet {
+			if len(rets) < 2 || c.Transport != "blocking" {
+				continue
+			}
+			lo, hi := rets[0], rets[0]
+			for _, d := range rets {
+				if d < lo {
+					lo = d
+				}
+				if d > hi {
+					hi = d
+				}
+			}
+			if hi-lo > 300*time.Millisecond {
+				out.EarlyReturn = fmt.Sprintf("endpoint %d, hung transport, %d concurrent Close calls: one returned after %v while the shutdown (another call) took %v", ep, len(rets), lo, hi)
+			}
+		}
+		mu.Unlock()
 		settle()
 		// calls after Close
 		for _, ep := range closers {
@@ -302,6 +330,8 @@ func TestC12(t *testing.T) {
 						r.Violate("C12/leak", "goroutines of the connection are still blocked after both ends were closed: "+res.Leaked[:min(len(res.Leaked), 300)], c)
 					case res.CloseHung != "":
 						r.Violate("C12/close-does-not-return", res.CloseHung, c)
+					case res.EarlyReturn != "":
+						r.Violate("C12/close-returns-before-shutdown-is-over", res.EarlyReturn, c)
 					case res.MaxCloseTook > 1100*time.Millisecond && c.Transport != "blocking" || res.MaxCloseTook > 2500*time.Millisecond:
 						r.Violate("C12/close-slow", fmt.Sprintf("a Close call took %v (FIN send timeout is 1 s)", res.MaxCloseTook), c)
 					case res.LaterSend || res.LaterRecv:
